@@ -345,8 +345,19 @@ def part_recordings(chk, paths, limit=None):
     chk.cov['recording_payloads'] = total
 
 
-def pick_recordings(chk, n):
+def pick_recordings(chk, n, small=False):
     allr = walk.recordings()
+    if small:
+        # the n smallest files, rotated by the seed within each game
+        by_game = {}
+        for p in sorted(allr, key=os.path.getsize):
+            by_game.setdefault(walk.game_of(p), []).append(p)
+        out = []
+        for g in ('wows', 'wot', 'wowp'):
+            lst = by_game.get(g, [])
+            if lst:
+                out.append(lst[chk.seed % min(len(lst), 4)])
+        return out[:n] if n < len(out) else out
     if n >= len(allr):
         return allr
     # one per game first, then newest/oldest wows, then random
